@@ -390,6 +390,49 @@ fn fam_two_lines(with_deviations: bool) -> Family {
     }
 }
 
+/// Section blocks in every order and repetition: the same section opened more than once, timing lines on both
+/// sides of the hit objects, same-time control point lines split over blocks, indented (still valid) records and
+/// storyboard-style lines.
+const BLOCKS: [&str; 14] = [
+    "[General]\nMode: 1\nPreviewTime: 7\n",
+    "[General]\n Mode: 3\n\tSampleSet: Soft\n",
+    "[Metadata]\nTitle: a\n Artist: b\n",
+    "[Difficulty]\n SliderMultiplier: 2\nSliderTickRate:2\n",
+    "[Events]\n2,100,200\n 0,0,\"bg.png\"\n",
+    "[Events]\n_M,0,1\n F,0,1\n",
+    "[TimingPoints]\n0,500,4,1,0,100,1,0\n",
+    "[TimingPoints]\n0,-50,4,2,0,50,0,0\n",
+    "[TimingPoints]\n0,300,3,1,0,100,1,0\n1000,-200,4,1,0,100,0,1\n",
+    "[TimingPoints]\n1000,-100,4,3,0,30,0,0\n",
+    "[HitObjects]\n100,100,1000,2,0,L|200:100,1,100\n",
+    "[HitObjects]\n64,192,0,1,0\n 256,192,2000,12,0,3000\n",
+    "[Colours]\nCombo1 : 1,2,3\n Combo2: 4,5,6\n",
+    "[Editor]\nBookmarks: 1,2\n BeatDivisor: 3\n",
+];
+
+fn fam_blocks(max_blocks: usize) -> Family {
+    let nb = BLOCKS.len() as u64;
+    let mut cum = vec![0u64];
+    for k in 1..=max_blocks {
+        cum.push(cum.last().unwrap() + nb.pow(k as u32));
+    }
+    Family {
+        name: "section blocks (header + one or two records, some indented) in every order with repetition",
+        total: *cum.last().unwrap(),
+        chunk: 4096,
+        gen: Box::new(move |idx| {
+            let k = cum.partition_point(|c| *c <= idx);
+            let mut r = idx - cum[k - 1];
+            let mut s = String::from("osu file format v14\n");
+            for _ in 0..k {
+                s.push_str(BLOCKS[(r % nb) as usize]);
+                r /= nb;
+            }
+            s.into_bytes()
+        }),
+    }
+}
+
 pub fn families(tier: Tier) -> Vec<Family> {
     let mut ctxs: Vec<(u8, i32)> = vec![(0, 14), (1, 14), (2, 14), (3, 14), (0, 3), (0, 7), (3, 128)];
     if tier.thorough() {
@@ -404,6 +447,7 @@ pub fn families(tier: Tier) -> Vec<Family> {
         fam_splices(),
     ];
     v.push(fam_two_lines(tier.thorough()));
+    v.push(fam_blocks(tier.pick(4, 5)));
     v
 }
 
@@ -418,6 +462,7 @@ pub fn families_for_c04(tier: Tier) -> Vec<Family> {
         fam_line_mutations(),
         fam_splices(),
         fam_two_lines(false),
+        fam_blocks(3),
     ]
 }
 
